@@ -312,7 +312,7 @@ def p6(ctx):
     ins, rem = _hc_split(crate)
     sw = set(C.slot_writers(crate))
     # self-symmetry deriver: adds to a class group, is not the leader union, does not shrink slots
-    leaders = set(C.leader_union_functions(crate))
+    leaders = set(C.leader_union_functions(crate)) | set(C.leader_helpers(crate))
     der = []
     for b in crate.fns():
         if b.id in leaders or b.id in sw:
